@@ -25,7 +25,8 @@ ASSUMPTIONS = ["tolerances as documented: delta 0/4/6/12, minor elongation 50 bp
                "UNSURE and never raises"]
 
 CONSISTENT = {"unique", "unique_minor_difference", "ambiguous"}
-F_EDITS = ["skip", "retain", "alt_donor", "alt_acceptor", "novel_exon", "alt_last_in", "alt_first_in", "far5end", "far3end"]
+F_EDITS = ["skip", "retain", "alt_donor", "alt_acceptor", "novel_exon", "alt_last_in", "alt_first_in", "far5end", "far3end",
+           "exon_beyond_right", "exon_beyond_left"]
 
 
 def far_chain(src, exons, annotated_sites, strand="+", info=None):
@@ -46,6 +47,19 @@ def far_chain(src, exons, annotated_sites, strand="+", info=None):
         else:
             ex[-1][1] += d
         return ex
+    if kind in ("exon_beyond_right", "exon_beyond_left"):
+        # the read shares no intron with T: it begins inside T's outermost exon (or inside a mono-exonic T), runs up to
+        # T's end or a few bases past it, and splices to an unannotated exon 300-700 bp beyond the gene
+        ln, gap, over = src.int(110, 260), src.int(300, 700), src.choice([0, 0, 3, 8, 15])
+        if kind == "exon_beyond_right":
+            e = ex[-1]
+            a = e[0] + src.int(0, max(0, (e[1] - e[0]) // 2))
+            return [[a, e[1] + over], [e[1] + over + gap, e[1] + over + gap + ln]]
+        e = ex[0]
+        b = e[1] - src.int(0, max(0, (e[1] - e[0]) // 2))
+        if e[0] - over - gap - ln < 60:
+            return None
+        return [[e[0] - over - gap - ln, e[0] - over - gap], [e[0] - over, b]]
     if kind == "skip":
         cand = [i for i in range(1, n - 1) if ex[i][1] - ex[i][0] + 1 >= 160]
         if not cand:
@@ -171,7 +185,8 @@ def scenarios(draw):
                     continue
                 # a far 3' end carries no tail (a tail there is an alternative polyA site, a category of its own);
                 # a far 5' end usually comes with a polyA tail at T's exact 3' end
-                pp = {"far3end": 0.0, "far5end": 0.85}.get(info["kind"], 0.7)
+                pp = {"far3end": 0.0, "far5end": 0.85, "exon_beyond_right": 0.0, "exon_beyond_left": 0.0}.get(
+                    info["kind"], 0.7)
                 r, tr = S.read_from_chain(src, name, g["chr"], g["strand"], ch, delta=0, trunc_p=0.0, jitter_p=0.0,
                                           indel_p=0.2, mapq=(20, 60), inward=False, polya_p=pp)
                 tr["edit"] = info["kind"]
